@@ -58,6 +58,10 @@ enum Fault {
     Truncate(String, u64), // per-mille of the length
     Garbage(String),
     Rollback(String, usize), // to saved version k
+    /// a seek index (`seek.v1.jsonl`) that is well-formed line by line, monotonic, right in its LAST
+    /// entry (the one the loader validates) and wrong in the one before it: that entry's offset is the
+    /// start of a later frame's line
+    Skew(String),
 }
 
 impl Fault {
@@ -72,6 +76,7 @@ impl Fault {
             Fault::Truncate(f, _) => format!("torn:{f}"),
             Fault::Garbage(f) => format!("garbage:{f}"),
             Fault::Rollback(f, _) => format!("prefix-only:{f}"),
+            Fault::Skew(f) => format!("skew:{f}"),
         }
     }
 }
@@ -152,6 +157,18 @@ fn apply_fault(data_dir: &Path, thread: &str, f: &Fault, versions: &Versions) ->
             if let Some(old) = versions.get(*v).and_then(|m| m.get(k)) {
                 let _ = std::fs::write(path(k), old);
             }
+        }
+        Fault::Skew(k) => {
+            let Ok(text) = std::fs::read_to_string(path(k)) else { return "noop".into() };
+            let mut entries: Vec<Value> = text.lines().filter_map(|l| serde_json::from_str(l).ok()).collect();
+            let n = entries.len();
+            if n < 2 || entries.iter().any(|e| e.get("offset").is_none()) {
+                return "noop".into();
+            }
+            let last_off = entries[n - 1]["offset"].clone();
+            entries[n - 2]["offset"] = last_off;
+            let out: String = entries.iter().map(|e| format!("{e}\n")).collect();
+            let _ = std::fs::write(path(k), out);
         }
     }
     f.class()
@@ -303,19 +320,22 @@ pub fn compare(scratch: &Path, tag: &str, data_dir: &Path, ws: &Path, thread: &s
     let b_dir = scratch.join(format!("{tag}-truth"));
     let _ = std::fs::remove_dir_all(&a_dir);
     let _ = std::fs::remove_dir_all(&b_dir);
-    copy_dir(data_dir, &b_dir);
-    let _ = std::fs::remove_dir_all(b_dir.join("continuity_streams"));
-    let b = answers(&b_dir, ws, thread, q, only);
-    let _ = std::fs::remove_dir_all(&b_dir);
-    // caches as found: every query on its OWN copy of the directory. Several queries rebuild caches
-    // as a side effect (a replay that falls back to the log rewrites all of them), so asking them one
-    // after the other on one copy would show every later query a healed cache.
+    // every query on its OWN copy of the directory, on both sides. Several queries rebuild caches as a
+    // side effect (a replay that falls back to the log rewrites all of them), so asking them one after
+    // the other on one copy would show every later query a healed cache; and some append frames of
+    // their own (cursor rotation, the compile's decision frames), so a later query on the same copy
+    // would be asked about a longer thread than its counterpart on the other side.
     let mut a = BTreeMap::new();
+    let mut b = BTreeMap::new();
     let names: Vec<&str> = match only {
         Some(n) => vec![n],
         None => QUERY_NAMES.to_vec(),
     };
     for name in names {
+        let _ = std::fs::remove_dir_all(&b_dir);
+        copy_dir(data_dir, &b_dir);
+        let _ = std::fs::remove_dir_all(b_dir.join("continuity_streams"));
+        b.extend(answers(&b_dir, ws, thread, q, Some(name)));
         let _ = std::fs::remove_dir_all(&a_dir);
         copy_dir(data_dir, &a_dir);
         let one = answers(&a_dir, ws, thread, q, Some(name));
@@ -325,6 +345,7 @@ pub fn compare(scratch: &Path, tag: &str, data_dir: &Path, ws: &Path, thread: &s
             break;
         }
     }
+    let _ = std::fs::remove_dir_all(&b_dir);
     let _ = std::fs::remove_dir_all(&a_dir);
     (a, b)
 }
@@ -404,7 +425,7 @@ fn one_case(rep: &mut Report, model: &mut Model, rng: &mut Rng, case_no: u64, si
     let mut versions: Versions = Vec::new();
     let (n1, fat) = match size {
         "small" => (rng.range(4, 60) as usize, false),
-        "chatty" => (rng.range(80, 160) as usize, false), // many messages: more than the compile window's limit before most anchors
+        "chatty" => (rng.range(80, 300) as usize, false), // many messages: more than the compile window's limit before most anchors
         "fat" => (rng.range(30, 90) as usize, true), // sidecars beyond the first tail window(s)
         _ => (0, false),
     };
@@ -515,6 +536,18 @@ fn one_case(rep: &mut Report, model: &mut Model, rng: &mut Rng, case_no: u64, si
             fs.push(Fault::Delete(k));
         }
         rep.count("rounds_losing_several_cache_files");
+        rounds.push((fs, false));
+    }
+    // and one round for a seek index that is wrong where nobody looks when it is loaded: alone, and
+    // with the messages+runs sidecar damaged so that the full-sidecar window read is the one that answers
+    if frames_now > 256 && kinds.iter().any(|k| k == "seek.v1.jsonl") {
+        let mut fs = vec![Fault::Skew("seek.v1.jsonl".into())];
+        match rng.below(3) {
+            0 => fs.push(Fault::Garbage("mr.v1.jsonl".into())),
+            1 => fs.push(Fault::Truncate("mr.v1.jsonl".into(), 500)),
+            _ => {}
+        }
+        rep.count("rounds_with_skewed_seek_index");
         rounds.push((fs, false));
     }
     drop(store);
@@ -706,6 +739,142 @@ fn model_check(rep: &mut Report, model: &mut Model, dir: &Path, thread: &str, q:
     rep.sample(json!({"impl": imp}));
 }
 
+/// (seek index) correspondence of the full-sidecar window read with `Rip.SeekIndex.window` over
+/// ARBITRARY contents of the seek-index file, plus the model-free oracle "an answer is the kept
+/// frames of one seq interval ending at the cut, and holds the newest `limit` messages at or below it"
+fn seek_case(rep: &mut Report, model: &mut Model, rng: &mut Rng, case_no: u64, stride: u64) {
+    let scratch = Scratch::new("c04seek");
+    let data_dir = scratch.path().join("data");
+    let ws = scratch.path().join("ws");
+    std::fs::create_dir_all(&ws).unwrap();
+    let (_log, store) = open(&data_dir, &ws);
+    let thread = store.ensure_default().expect("default thread");
+    let mut h = Hist { msgs: Vec::new(), runs: 0 };
+    let ops = *rng.pick(&[12usize, 40, 150, 330, 600]);
+    grow(&store, &thread, rng, ops, &mut h, false);
+    if h.msgs.is_empty() {
+        let _ = store.append_message(&thread, "user".into(), "cli".into(), "only".into()).map(|m| h.msgs.push(m));
+    }
+    let dir = data_dir.join("continuity_streams");
+    let sidecar = dir.join(format!("{thread}.jsonl"));
+    let idx = dir.join(format!("{thread}.seek.v1.jsonl"));
+    let bytes = std::fs::read(&sidecar).unwrap_or_default();
+    // (seq, msg, keep, start offset, size)
+    let mut lines: Vec<(u64, bool, bool, u64, u64)> = Vec::new();
+    let mut off = 0u64;
+    for l in bytes.split_inclusive(|c| *c == b'\n') {
+        let v: Value = serde_json::from_slice(l).unwrap_or(Value::Null);
+        let t = v["type"].as_str().unwrap_or("");
+        let msg = t == "continuity_message_appended";
+        lines.push((v["seq"].as_u64().unwrap_or(0), msg, msg || t == "continuity_run_ended", off, l.len() as u64));
+        off += l.len() as u64;
+    }
+    let n = lines.len() as u64;
+    if n < 3 {
+        return;
+    }
+    let right: Vec<(u64, u64)> = lines.iter().filter(|l| l.0 % stride == 0).map(|l| (l.0, l.3)).collect();
+    rep.count_n("seek_frames", n);
+    for variant in 0..8u32 {
+        // the index file as found
+        let (label, file): (&str, Option<Vec<(u64, u64)>>) = match variant {
+            0 => ("right", Some(right.clone())),
+            1 => ("missing", None),
+            2 => {
+                // one entry carries the line start of another frame (earlier or later)
+                let mut e = right.clone();
+                let i = rng.below(e.len() as u64) as usize;
+                e[i].1 = lines[rng.below(n) as usize].3;
+                ("one-offset-moved-to-a-line-start", Some(e))
+            }
+            3 => {
+                let mut e = right.clone();
+                let i = rng.below(e.len() as u64) as usize;
+                let l = lines[rng.below(n) as usize];
+                e[i].1 = l.3 + 1 + rng.below(l.4.saturating_sub(1).max(1));
+                ("one-offset-inside-a-line", Some(e))
+            }
+            4 => {
+                let mut e = right.clone();
+                let i = rng.below(e.len() as u64) as usize;
+                e[i].0 = rng.below(n + 3);
+                ("one-seq-changed", Some(e))
+            }
+            5 => {
+                // entries for arbitrary frames with their right offsets, then made monotonic: a dense or sparse but true index
+                let mut e: Vec<(u64, u64)> = (0..rng.range(1, 6)).map(|_| { let l = lines[rng.below(n) as usize]; (l.0, l.3) }).collect();
+                e.sort();
+                ("true-entries-at-other-frames", Some(e))
+            }
+            6 => {
+                // arbitrary pairs (seq of one frame, line start of another), sorted both ways
+                let mut seqs: Vec<u64> = (0..rng.range(1, 5)).map(|_| rng.below(n + 2)).collect();
+                let mut offs: Vec<u64> = seqs.iter().map(|_| if rng.chance(1, 6) { off + rng.below(50) } else { lines[rng.below(n) as usize].3 }).collect();
+                seqs.sort();
+                offs.sort();
+                ("arbitrary-monotonic-pairs", Some(seqs.into_iter().zip(offs).collect()))
+            }
+            _ => {
+                let mut e = right.clone();
+                e.reverse();
+                if e.len() < 2 {
+                    e.clear();
+                }
+                ("rejected-by-the-loader", Some(e))
+            }
+        };
+        for _ in 0..3 {
+            let from_seq = if rng.chance(1, 8) { n + rng.below(5) } else { rng.below(n) };
+            let limit = *rng.pick(&[1usize, 2, 5, 10, 50]);
+            match &file {
+                None => {
+                    let _ = std::fs::remove_file(&idx);
+                }
+                Some(es) => {
+                    let text: String = es.iter().map(|(s, o)| format!("{{\"version\":1,\"stride\":{stride},\"seq\":{s},\"offset\":{o}}}\n")).collect();
+                    std::fs::write(&idx, text).unwrap();
+                }
+            }
+            let got = ripd::verif_export::continuities::full_sidecar_window_from_seq(&store, &thread, from_seq, limit);
+            let imp = match &got {
+                Ok(Some(seqs)) => format!("ok [{}]", seqs.iter().map(|s| s.to_string()).collect::<Vec<_>>().join(",")),
+                Ok(None) => "none".to_string(),
+                Err(_) => "err".to_string(),
+            };
+            let es = file.clone().unwrap_or_default();
+            let mut toks: Vec<String> = vec!["c04s".into(), "1".into(), stride.to_string(), "200000".into(), from_seq.to_string(), limit.to_string(), if file.is_some() { "1".into() } else { "0".into() }, es.len().to_string()];
+            toks.extend(es.iter().flat_map(|(s, o)| [s.to_string(), o.to_string()]));
+            toks.push(lines.len().to_string());
+            toks.extend(lines.iter().flat_map(|l| [l.0.to_string(), (l.1 as u8).to_string(), (l.2 as u8).to_string(), (l.4 - 1).to_string()]));
+            let line = toks.join(" ");
+            let m = model.ask(&line);
+            rep.evaluations += 1;
+            rep.count(&format!("seek_index_{}", label.replace('-', "_")));
+            rep.count(if imp.starts_with("ok") { "seek_window_answered" } else { "seek_window_refused" });
+            if imp != m {
+                rep.disagreement("full-sidecar window read vs Rip.SeekIndex.window", json!({"case": case_no, "index": label, "from_seq": from_seq, "limit": limit, "entries": es, "frames": n}), &imp, &m);
+            }
+            // model-free oracle on an answer
+            if let Ok(Some(seqs)) = &got {
+                let kept_below: Vec<u64> = lines.iter().filter(|l| l.2 && l.0 <= from_seq).map(|l| l.0).collect();
+                let msgs_below: Vec<u64> = lines.iter().filter(|l| l.1 && l.0 <= from_seq).map(|l| l.0).collect();
+                let want_msgs: Vec<u64> = msgs_below.iter().rev().take(limit).rev().cloned().collect();
+                let is_suffix = kept_below.ends_with(seqs);
+                let has_msgs = want_msgs.iter().all(|m| seqs.contains(m));
+                if !is_suffix || !has_msgs {
+                    rep.oracle_failure(
+                        &format!("C04|full_sidecar_window|seek-index:{label}"),
+                        &format!("the window read for cut {from_seq}, limit {limit} over a seek index that is {label} answered {seqs:?}; the newest {limit} messages at or below the cut are {want_msgs:?} (an answer must be a suffix of the kept frames at or below the cut that holds them)"),
+                        json!({"case": case_no, "index": label, "entries": es, "from_seq": from_seq, "limit": limit, "frames": n}),
+                    );
+                }
+            }
+            rep.nontrivial_case(&format!("{label}|{imp}"));
+        }
+    }
+    let _ = std::fs::remove_file(&idx);
+}
+
 pub fn run(opts: &Opts) -> Report {
     let mut rep = Report::new(
         "C04",
@@ -722,6 +891,14 @@ pub fn run(opts: &Opts) -> Report {
     }
     for c in 0..16 * k {
         one_case(&mut rep, &mut model, &mut rng, 15_000 + c, "chatty");
+    }
+    let stride = std::fs::read_to_string("/verif/.build/gen.json")
+        .ok()
+        .and_then(|t| serde_json::from_str::<Value>(&t).ok())
+        .and_then(|v| v["consts"].as_array().and_then(|a| a.iter().find(|c| c["name"].as_str().map(|n| n.ends_with("SEEK_INDEX_STRIDE_EVENTS_V1")).unwrap_or(false)).and_then(|c| c["value"].as_str().and_then(|s| s.parse::<u64>().ok()))))
+        .unwrap_or(256);
+    for c in 0..12 * k {
+        seek_case(&mut rep, &mut model, &mut rng, 30_000 + c, stride);
     }
     let longs = if opts.thorough { 3 } else { 1 };
     for c in 0..longs {
